@@ -116,7 +116,7 @@ def clause_mlp(cases, ctx: Ctx):
             cb = CallbackList(callbacks=[])
 
             @eqx.filter_jit
-            def run(env, pol, key):
+            def run(env, pol, key, algo=algo, cb=cb):  # bound now: a later re-trace must not see a later configuration's algo
                 k1, k2 = jr.split(key)
                 st0 = algo.reset(env, pol, key=k1, callback=cb)
                 st1 = algo.iteration(st0, key=k2, callback=cb)
